@@ -567,11 +567,14 @@ def large_param_family(sizes=None):
     out = []
     for n in sizes or [6, 17, 200, 254, 255, 256, 257, 300]:
         args = " ".join(_items(n, "int"))
-        out.append(("large:cmd:%d" % n, "main:\nprintln %s\nlocal.z = 1\nwait 0\nlocal.z = 2\nend\n" % args, ""))
-        out.append(("large:method:%d" % n, "main:\nlocal println %s\nlocal.z = 1\n$nosuch print %s\nlocal.z = 2\ngroup print %s\nend\n" % (args, args, args), ""))
-        out.append(("large:retcmd:%d" % n, "main:\nlocal.q = randomint %s\nlocal.z = 1\nlocal.q = (local inheritsfrom %s)\nlocal.z = 2\nend\n" % (args, args), ""))
+        # beyond the one-byte count operand the compiler must refuse (notes/C02-findings.md F6): name suffix `:reject`
+        rj = ":reject" if n > 255 else ""
+        rjt = ":reject" if n + 1 > 255 else ""
+        out.append(("large:cmd:%d%s" % (n, rj), "main:\nprintln %s\nlocal.z = 1\nwait 0\nlocal.z = 2\nend\n" % args, ""))
+        out.append(("large:method:%d%s" % (n, rj), "main:\nlocal println %s\nlocal.z = 1\n$nosuch print %s\nlocal.z = 2\ngroup print %s\nend\n" % (args, args, args), ""))
+        out.append(("large:retcmd:%d%s" % (n, rj), "main:\nlocal.q = randomint %s\nlocal.z = 1\nlocal.q = (local inheritsfrom %s)\nlocal.z = 2\nend\n" % (args, args), ""))
         params = " ".join("local.p%d" % i for i in range(n))
-        out.append(("large:thread:%d" % n,
+        out.append(("large:thread:%d%s" % (n, rjt),
                     "main:\nthread callee %s\nlocal.z = 1\nlocal.q = waitthread callee %s\nlocal.z = 2\nlocal thread callee %s\nend\n"
                     "callee %s:\nlocal.s = local.p0 + local.p%d\nend local.s\n" % (args, args, args, params, n - 1), ""))
     return out
